@@ -43,4 +43,94 @@ def IsBounds (s : List Char) (b : Bounds) : Prop :=
     ∧ Blank w1 ∧ Blank w2 ∧ Blank w3 ∧ Blank w4 ∧ Blank w5 ∧ Blank w6
     ∧ IsDecimal n1 b.1 ∧ IsDecimal n2 b.2.1 ∧ IsDecimal n3 b.2.2.1 ∧ IsDecimal n4 b.2.2.2
 
+
+/-! ## The regular expression as a syntax tree
+
+Only the constructs the live pattern uses.  `pattern` spells a tree in Python's `re` syntax;
+it adds no parentheses of its own, so only trees obeying the precedence discipline
+`WellFormed` (alternation only directly inside a group, postfix operators only on atoms) are
+spelled unambiguously. -/
+
+inductive Re
+  | digit                 -- `\d`
+  | space                 -- `\s`
+  | chr (c : Char)        -- a literal character (`.` is spelled `\.`)
+  | seq (a b : Re)        -- `ab`
+  | alt (a b : Re)        -- `a|b`
+  | star (a : Re)         -- `a*`
+  | plus (a : Re)         -- `a+`
+  | opt (a : Re)          -- `a?`
+  | group (a : Re)        -- `(a)`   capturing
+  | ncgroup (a : Re)      -- `(?:a)` non-capturing
+  deriving DecidableEq, Repr
+
+namespace Re
+
+def pattern : Re → String
+  | digit => "\\d"
+  | space => "\\s"
+  | chr c => if c = '.' then "\\." else String.singleton c
+  | seq a b => a.pattern ++ b.pattern
+  | alt a b => a.pattern ++ "|" ++ b.pattern
+  | star a => a.pattern ++ "*"
+  | plus a => a.pattern ++ "+"
+  | opt a => a.pattern ++ "?"
+  | group a => "(" ++ a.pattern ++ ")"
+  | ncgroup a => "(?:" ++ a.pattern ++ ")"
+
+def isAtom : Re → Bool
+  | digit | space | chr _ | group _ | ncgroup _ => true
+  | _ => false
+
+/-- `top = true`: an alternation is allowed here (top level or directly inside a group) -/
+def wf : Bool → Re → Bool
+  | _, digit | _, space => true
+  | _, chr c => !(c = '\\' || c = '(' || c = ')' || c = '|' || c = '*' || c = '+' || c = '?'
+      || c = '[' || c = ']' || c = '{' || c = '}' || c = '^' || c = '$')
+  | _, seq a b => wf false a && wf false b
+  | top, alt a b => top && wf false a && wf true b
+  | _, star a | _, plus a | _, opt a => a.isAtom && wf false a
+  | _, group a | _, ncgroup a => wf true a
+
+/-- the language of a tree (standard semantics; a full match of the text) -/
+inductive Matches : Re → List Char → Prop
+  | digit {c} : isDigit c = true → Matches .digit [c]
+  | space {c} : isSpace c = true → Matches .space [c]
+  | chr {c} : Matches (.chr c) [c]
+  | seq {a b s t} : Matches a s → Matches b t → Matches (.seq a b) (s ++ t)
+  | altL {a b s} : Matches a s → Matches (.alt a b) s
+  | altR {a b s} : Matches b s → Matches (.alt a b) s
+  | starNil {a} : Matches (.star a) []
+  | starCons {a s t} : Matches a s → Matches (.star a) t → Matches (.star a) (s ++ t)
+  | plus {a s t} : Matches a s → Matches (.star a) t → Matches (.plus a) (s ++ t)
+  | optNone {a} : Matches (.opt a) []
+  | optSome {a s} : Matches a s → Matches (.opt a) s
+  | group {a s} : Matches a s → Matches (.group a) s
+  | ncgroup {a s} : Matches a s → Matches (.ncgroup a) s
+
+end Re
+
+open Re in
+/-- `NUMBER = \d+(?:_\d+)*` -/
+def numberRe : Re := .seq (.plus .digit) (.star (.ncgroup (.seq (.chr '_') (.plus .digit))))
+
+open Re in
+/-- `DECIMAL = (-?(?:NUMBER|NUMBER\.|\.NUMBER|NUMBER\.NUMBER))` -/
+def decimalRe : Re :=
+  .group (.seq (.opt (.chr '-')) (.ncgroup
+    (.alt numberRe (.alt (.seq numberRe (.chr '.')) (.alt (.seq (.chr '.') numberRe)
+      (.seq numberRe (.seq (.chr '.') numberRe)))))))
+
+open Re in
+/-- `\s*,\s*` -/
+def sepRe : Re := .seq (.star .space) (.seq (.chr ',') (.star .space))
+
+open Re in
+/-- `r'\s*,\s*'.join([DECIMAL] * 4)` -/
+def boundsAst : Re :=
+  .seq decimalRe (.seq sepRe (.seq decimalRe (.seq sepRe (.seq decimalRe (.seq sepRe decimalRe)))))
+
+/-- flags of a compiled `str` pattern without explicit flags: `re.UNICODE` -/
+def boundsFlags : Nat := 32
+
 end Ems.Cli
